@@ -7,6 +7,7 @@ definitions in Format.lean / Escape.lean / Model.lean, whose constants are regen
 suites `match.replay` and `format`.
 -/
 import GoSnaps.Lemmas.Format
+import GoSnaps.Generated.Consts
 namespace GoSnaps.C01
 
 open GoSnaps
@@ -69,5 +70,10 @@ example :
     let e1 : Entry := ⟨[91, 84, 101, 115, 116, 65, 32, 45, 32, 49, 93], [120, 10, 47, 45, 47, 45, 47, 45, 47, 10]⟩
     let e2 : Entry := ⟨[91, 84, 101, 115, 116, 66, 32, 45, 32, 49, 93], escape ([45, 45, 45, 10, 10, 32, 121])⟩
     getPrev e2.id (render [e1, e2]) = some (e2.body, 8) := by decide
+
+/-- The model's `scan` splits a file into lines of ANY length.  The real scanner has a token limit;
+the fact regenerated from the source says that every scanner over a snapshot file is built by
+`snapshotScanner` with the limit `math.MaxInt`, i.e. that this idealisation is the code's. -/
+theorem source_scanner_unbounded : Generated.scannerUnbounded = true := by decide
 
 end GoSnaps.C01
